@@ -303,6 +303,14 @@ def step (line : String) : String :=
               (C.rtr_pdu_convert_footer_byte_order (C.memOfList raw) raw.length 0 (BitVec.ofNat 32 d)))
             (if Conv.footerNeed cd raw ≤ raw.length then bytesToHex (Conv.convFooter cd raw) else "UNDEF")
     | _, _ => "bad-op"
+  | ["tonet", hex] =>
+    -- the translated `rtr_pdu_to_network_byte_order` (body, then header) next to `Conv.toNetwork`
+    match hexToBytes? hex with
+    | some raw =>
+      if raw.length < 8 then "bad-op" else
+      reply (showOpt (fun m => bytesToHex (memBytes m raw.length)) (C.rtr_pdu_to_network_byte_order (C.memOfList raw) raw.length 0))
+            (if Conv.footerNeed .toNetwork raw ≤ raw.length then bytesToHex (Conv.toNetwork raw) else "UNDEF")
+    | none => "bad-op"
   | _ => "bad-op"
 
 end Rtr.CFunDriver
